@@ -24,6 +24,7 @@ type gctx struct {
 	// capability-only history: queues carry nothing but (sometimes) a capability, so that sums never
 	// decide and chains "no capability ... capability" are moved around
 	capOnly bool
+	capDims []int64 // dimensions of a directed / capability-only history (ascending)
 }
 
 func (g *gctx) state() map[int64]qspec {
@@ -103,7 +104,11 @@ func (g *gctx) genSpecRes(st map[int64]qspec, self, p int64, q *qspec) {
 	dims := []int64{}
 	q.cap, q.des, q.guar = rl{}, rl{}, rl{}
 	if g.capOnly {
-		for _, d := range []int64{2, 4} {
+		cd := g.capDims
+		if len(cd) == 0 {
+			cd = []int64{2, 4, 7}
+		}
+		for _, d := range cd {
 			if !r.Chance(2, 5) {
 				continue
 			}
@@ -545,6 +550,17 @@ func gen(rng *vh.Rng, n int, emit func(id string, sel int, in []int64, kind stri
 		{kCreate, qspec{name: 4, parent: 0, cap: cpu(5000), des: cpu(5000), guar: cpu(5000)}},
 		{kUpdate, qspec{name: 1, cap: cpu(500), des: cpu(500), guar: cpu(500)}}}},
 		"fixed-root-carve-out", "fixed/root-carve-out", emit)
+	// a dimension whose unit in api.NewResource is not Quantity.Value(): ephemeral-storage is stored in
+	// milli-units on both sides of every comparison.  p (7 -> 5) above c (7): lowering refused; q (nothing) <- d (7)
+	// moved under s (5): refused; under t (7): admitted.  (amounts are milli-units: 7000 = "7")
+	eph := func(v int64) rl { return rl{{7, v}} }
+	finish(history{config{5, 0, 0, 0}, []qspec{root, def}, []request{
+		{kCreate, qspec{name: 3, parent: 1, cap: eph(9000)}}, {kCreate, qspec{name: 4, parent: 3, cap: eph(7000)}},
+		{kUpdate, qspec{name: 3, parent: 1, cap: eph(5000)}}, {kUpdate, qspec{name: 3, parent: 1, cap: eph(7000)}},
+		mk(5, 1), {kCreate, qspec{name: 6, parent: 5, cap: eph(7000)}},
+		{kCreate, qspec{name: 7, parent: 1, cap: eph(5000)}}, mv(5, 7),
+		{kCreate, qspec{name: 8, parent: 1, cap: rl{{1, 7}, {7, 7000}}}}, mv(5, 8)}},
+		"fixed-capability-ephemeral-storage-unit", "fixed/reparent-subtree-capability", emit)
 	// the root queue itself given a parent
 	finish(history{config{5, 0, 1, 0}, []qspec{root, def}, []request{mk(3, 1), mk(4, 3), mv(1, 4), mv(1, 1), mk(5, 4), mv(3, 5)}},
 		"fixed-root-reparent", "fixed/root-given-a-parent", emit)
